@@ -5,6 +5,15 @@ V = os.path.dirname(os.path.dirname(os.path.abspath(__file__)))
 props = [json.loads(l) for l in open(os.path.join(V, "properties.jsonl"))]
 
 CLAIMED = {
+ "C01": dict(cat="model_checking", tech="trace validation: every recorded (text string, modifiers, buffer, reported matches) case judged by TLC against the TLA+ reference semantics TextMatch.tla",
+   text="TextMatch.tla defines, as TLA+ operators over byte sequences, the set of (length, xor key) with which a declaration may be reported at each offset (ascii/wide/nocase/fullword/xor ranges/base64 permutations/private). Random and boundary-planted cases are executed on the sanitizer-built library and TLC evaluates ObsOK (ascending, nothing missed, nothing extra, true length/key) for every case.",
+   ref="5 C01, 4.2", note="states = one per judged case (functional oracle: the spec has no interleaving to explore); fullword on xor/wide follows the code where the manual is silent; the atom-pipeline model (Atoms/Hits/Verify) is not yet part of the spec."),
+ "C02": dict(cat="model_checking", tech="trace validation: recorded (hex string, buffer, matches) cases judged by TLC against ReMatch.tla; scaled-threshold and production builds",
+   text="ReMatch.tla gives the set of end positions of every AST (bytes, masks, negations, jumps, alternatives) at every offset; TLC checks StringObsOK for every recorded case. Chaining is exercised in a build with YR_STRING_CHAINING_THRESHOLD=4 (small buffers, many heads/tails, gaps at bound-1/bound/bound+1) and in the production build (threshold 200).",
+   ref="5 C02, 4.3", note="D12/D13 (chains with variable-length pieces lose matches) are known findings tolerated only by their spec-side signature (ChainGaps # {} and not PiecesFixed, subset + valid lengths)."),
+ "C03": dict(cat="model_checking", tech="trace validation: recorded (regex, flags, buffer, matches) and `matches` verdicts judged by TLC against ReMatch.tla",
+   text="Same AST semantics with classes, quantifiers (greedy/lazy), anchors, word boundaries, /i /s, nocase/wide/ascii/fullword; TLC checks StringObsOK per case and MatchesOp for the `matches` operator on external strings.",
+   ref="5 C03, 4.4", note="D14 (zero-length matches) and D17 (fullword tested on the preferred length only) are known findings with spec-side signatures; expressions hitting documented regex limits are skipped."),
  "C10": dict(cat="model_checking", tech="TLC model checking of Scan.tla (all histories of <=3 scans x outcomes) + trace validation of recorded scanner histories against ScanTrace.tla",
    text="Scan.tla models the scanner life cycle one action per critical section of scanner.c/exec.c/modules.c; TLC checks ProtocolOK/ResidualClean/NoLeak exhaustively over histories of <=3 scans x files x outcomes (and reproduces D1/D10 when the fixes are switched off in the model). Random longer histories (PE/ELF/text/empty; abort/error/timeout/not-ready resumed or abandoned/match cap) are executed on one real scanner under ASan and every event (callbacks, result, residual state projection) must be a step of the spec with all invariants holding; heap growth after destroy is a violation.",
    ref="5 C10, 4.7", note="abstract files are built by gen/scangen.py (markers never straddle blocks); projection of scanner state is counts/popcounts; OS-level memory errors are seen only through ASan."),
